@@ -58,7 +58,7 @@ fn gen(r: &mut Rng, _cfg: &RunCfg) -> Case {
         Case::new("roundtrip").text(p).opt(o).num(r.coin() as usize)
     } else {
         // structural half: arbitrary strings heavy in line endings, CR and prefix characters
-        let m = Mix::swarm(r, &[Class::Ascii, Class::Wide, Class::Zero, Class::Punct, Class::Space, Class::Para, Class::Prefix, Class::Clean, Class::Dirty]);
+        let m = Mix::swarm(r, &[Class::Ascii, Class::Wide, Class::Zero, Class::Punct, Class::Space, Class::Para, Class::Prefix, Class::Clean, Class::Dirty, Class::Scalars]);
         let mut s = String::new();
         for _ in 0..r.range(0, 10) {
             match r.below(8) {
